@@ -35,6 +35,9 @@ type Mutant struct {
 	New    string `json:"new"`
 	Expect string `json:"expect"` // substring of an obligation key that must fail
 	Note   string `json:"note,omitempty"`
+	// Patch, when set, replaces File/Old/New: a unified diff (path relative to
+	// /verif, e.g. seeded/C24-r2/patch.diff) applied in memory.
+	Patch string `json:"patch,omitempty"`
 	// More holds further edits of the same mutant (two cooperating sites).
 	More []struct {
 		File string `json:"file"`
@@ -218,18 +221,30 @@ type mutantOutcome struct {
 
 func runMutant(p *Prop, repo string, m Mutant) mutantOutcome {
 	out := mutantOutcome{Name: m.Name, Expect: m.Expect, File: m.File, Comment: m.Note}
-	abs := filepath.Join(repo, m.File)
-	src, err := os.ReadFile(abs)
-	if err != nil {
-		out.Status, out.Detail = "stale", err.Error()
-		return out
+	var overlay map[string][]byte
+	var err error
+	if m.Patch != "" {
+		// a kept seeded change (unified diff under /verif) applied in memory
+		out.File = m.Patch
+		overlay, err = overlayFromPatch(repo, filepath.Join(verifDir(), m.Patch))
+		if err != nil {
+			out.Status, out.Detail = "stale", err.Error()
+			return out
+		}
+	} else {
+		abs := filepath.Join(repo, m.File)
+		src, err := os.ReadFile(abs)
+		if err != nil {
+			out.Status, out.Detail = "stale", err.Error()
+			return out
+		}
+		if strings.Count(string(src), m.Old) != 1 {
+			out.Status, out.Detail = "stale", fmt.Sprintf("old text occurs %d times", strings.Count(string(src), m.Old))
+			return out
+		}
+		mut := strings.Replace(string(src), m.Old, m.New, 1)
+		overlay = map[string][]byte{abs: []byte(mut)}
 	}
-	if strings.Count(string(src), m.Old) != 1 {
-		out.Status, out.Detail = "stale", fmt.Sprintf("old text occurs %d times", strings.Count(string(src), m.Old))
-		return out
-	}
-	mut := strings.Replace(string(src), m.Old, m.New, 1)
-	overlay := map[string][]byte{abs: []byte(mut)}
 	for _, e := range m.More {
 		a2 := filepath.Join(repo, e.File)
 		var s2 []byte
